@@ -365,4 +365,20 @@ bool vp_ranges2(int (&arr)[3], int (&vals2)[2], int (&vals3)[3])
   return r;
 }
 
+// range matchers over a std::vector<int> (any length, incl. empty; the vector is a trusted fixed-capacity model)
+bool vp_ranges_vec(std::vector<int>& vec)
+{
+  using namespace trompeloeil;
+  bool r = true;
+  r = param_matches(range_is(1, 2, 3), std::ref(vec)) && r;
+  r = param_matches(range_starts_with(1, 2), std::ref(vec)) && r;
+  r = param_matches(range_ends_with(1, 2), std::ref(vec)) && r;
+  r = param_matches(range_includes(1, 2), std::ref(vec)) && r;
+  r = param_matches(range_is_permutation(1, 2, 3), std::ref(vec)) && r;
+  r = param_matches(range_all_of(vp_abs<1>{}), std::ref(vec)) && r;
+  r = param_matches(range_any_of(vp_abs<1>{}), std::ref(vec)) && r;
+  r = param_matches(range_none_of(vp_abs<1>{}), std::ref(vec)) && r;
+  return r;
+}
+
 } // namespace vp_trompeloeil
